@@ -25,6 +25,10 @@
                       multishot accept already took from the backlog but did not yield.
      DevManagedEmpty  a zero length datagram received with a managed-buffer call that reports a
                       source is returned as "nothing" (None): its source address is not delivered.
+     DevPollMultiLen  polling driver in a build with both drivers: the multishot items that carry
+                      their own payload length (RecvFromMulti / RecvMsgMulti results) report an
+                      empty payload although the receive consumed bytes (the length recorded by
+                      set_result is not forwarded to the fallback operation).
    With a deviation switched off the corresponding action has the ideal effect. *)
 EXTENDS Integers, Sequences, FiniteSets, TLC
 
@@ -32,7 +36,7 @@ CONSTANTS
   Drvs,             \* drivers explored: subset of {"iour", "poll"}
   PoolBuf,          \* length of one buffer of the managed buffer pool
   MaxDgram,         \* largest datagram payload the transport accepts
-  DevMultiDrop, DevIncomingDrop, DevManagedEmpty,
+  DevMultiDrop, DevIncomingDrop, DevManagedEmpty, DevPollMultiLen,
   \* ---- bounds of the exhaustive configurations only (actions themselves are unbounded)
   Part,             \* "stream" | "dgram" | "listen"
   Feat,             \* operation groups enabled next to the plain ones: subset of {"vec", "zc", "managed", "msg", "multi", "split"}
@@ -54,6 +58,7 @@ VARIABLES
   marm,     \* marm[d]: "off" | "armed" (io_uring, operation in flight) | "idle" (polling, between items)
             \*        | "term" (io_uring, kernel terminated the multishot: resubmit on next poll)
   mlen,     \* mlen[d]: effective capacity of each multishot item
+  manc,     \* manc[d]: the stream yields ancillary results (RecvMsgMulti) that carry their own payload length
   shut,     \* shut[d]: the writer half-closed
   eofseen,  \* eofseen[d]: the reader observed end of stream
   wnext,    \* wnext[d]: pattern offset of the first byte of the next send buffer
@@ -70,7 +75,7 @@ VARIABLES
   \* ---- observable result of the last operation (what the API returned)
   ret
 
-svars == <<q, mq, marm, mlen, shut, eofseen, wnext, zc, hnd, sent, seen, got, lost>>
+svars == <<q, mq, marm, mlen, manc, shut, eofseen, wnext, zc, hnd, sent, seen, got, lost>>
 dvars == <<dq, dmq, dmarm, dsent, dgot, dlost, duid>>
 lvars == <<connecting, backlog, aq, inc, accepted, lostc>>
 vars  == <<drv, svars, dvars, lvars, ret>>
@@ -133,7 +138,7 @@ Accept(d, n, k) ==
 SendPlain(d, n, k) ==
   /\ Accept(d, n, k)
   /\ ret' = [op |-> "send", k |-> k, back |-> TRUE]
-  /\ UNCHANGED <<drv, mq, marm, mlen, shut, eofseen, zc, hnd, seen, got, lost, dvars, lvars>>
+  /\ UNCHANGED <<drv, mq, marm, mlen, manc, shut, eofseen, zc, hnd, seen, got, lost, dvars, lvars>>
 
 (* op/sendv: SendVectored / SendMsg - the members are laid out in order, the accepted bytes are
    a prefix of their concatenation *)
@@ -141,7 +146,7 @@ SendVectored(d, n1, n2, k) ==
   /\ Accept(d, n1 + n2, k)
   /\ ret' = [op |-> "sendv", k |-> k, back |-> TRUE,
              parts |-> <<Min(k, n1), k - Min(k, n1)>>]      \* bytes taken from each member
-  /\ UNCHANGED <<drv, mq, marm, mlen, shut, eofseen, zc, hnd, seen, got, lost, dvars, lvars>>
+  /\ UNCHANGED <<drv, mq, marm, mlen, manc, shut, eofseen, zc, hnd, seen, got, lost, dvars, lvars>>
 
 (* op/zc: SendZc - the result comes first, the buffer stays lent to the kernel until the
    notification (io_uring). The polling driver has no zero-copy: SendZc is Send, the buffer is
@@ -151,7 +156,15 @@ ZcSend(d, n, k) ==
   /\ Accept(d, n, k)
   /\ zc' = [zc EXCEPT ![d] = IF drv = "iour" THEN "lent" ELSE "released"]
   /\ ret' = [op |-> "zc", k |-> k, back |-> FALSE]
-  /\ UNCHANGED <<drv, mq, marm, mlen, shut, eofseen, hnd, seen, got, lost, dvars, lvars>>
+  /\ UNCHANGED <<drv, mq, marm, mlen, manc, shut, eofseen, hnd, seen, got, lost, dvars, lvars>>
+
+(* op/zcv: SendVectoredZc / SendMsgZc with several members *)
+ZcSendVectored(d, n1, n2, k) ==
+  /\ zc[d] = "none"
+  /\ Accept(d, n1 + n2, k)
+  /\ zc' = [zc EXCEPT ![d] = IF drv = "iour" THEN "lent" ELSE "released"]
+  /\ ret' = [op |-> "zcv", k |-> k, back |-> FALSE, parts |-> <<Min(k, n1), k - Min(k, n1)>>]
+  /\ UNCHANGED <<drv, mq, marm, mlen, manc, shut, eofseen, hnd, seen, got, lost, dvars, lvars>>
 
 (* zero-copy is not available for this socket (Unix sockets, io_uring): nothing is sent *)
 ZcUnsupported(d, n) ==
@@ -159,27 +172,27 @@ ZcUnsupported(d, n) ==
   /\ wnext' = [wnext EXCEPT ![d] = @ + n]
   /\ zc' = [zc EXCEPT ![d] = "released"]
   /\ ret' = [op |-> "zc", k |-> 0, back |-> FALSE, unsupported |-> TRUE]
-  /\ UNCHANGED <<drv, q, mq, marm, mlen, shut, eofseen, hnd, sent, seen, got, lost, dvars, lvars>>
+  /\ UNCHANGED <<drv, q, mq, marm, mlen, manc, shut, eofseen, hnd, sent, seen, got, lost, dvars, lvars>>
 
 (* kernel: the second completion of the zero-copy send *)
 ZcNotify(d) ==
   /\ zc[d] = "lent"
   /\ zc' = [zc EXCEPT ![d] = "released"]
-  /\ UNCHANGED <<drv, q, mq, marm, mlen, shut, eofseen, wnext, hnd, sent, seen, got, lost, dvars, lvars, ret>>
+  /\ UNCHANGED <<drv, q, mq, marm, mlen, manc, shut, eofseen, wnext, hnd, sent, seen, got, lost, dvars, lvars, ret>>
 
 (* the Zerocopy future resolves: the buffer is handed back, only after the notification *)
 ZcReturn(d) ==
   /\ zc[d] = "released"
   /\ zc' = [zc EXCEPT ![d] = "none"]
   /\ ret' = [op |-> "zcwait", back |-> TRUE, d |-> d]
-  /\ UNCHANGED <<drv, q, mq, marm, mlen, shut, eofseen, wnext, hnd, sent, seen, got, lost, dvars, lvars>>
+  /\ UNCHANGED <<drv, q, mq, marm, mlen, manc, shut, eofseen, wnext, hnd, sent, seen, got, lost, dvars, lvars>>
 
 (* op/shutdown: ShutdownSocket(Write) *)
 Shutdown(d) ==
   /\ hnd[W(d)] > 0 /\ ~shut[d]
   /\ shut' = [shut EXCEPT ![d] = TRUE]
   /\ ret' = [op |-> "shutdown"]
-  /\ UNCHANGED <<drv, q, mq, marm, mlen, eofseen, wnext, zc, hnd, sent, seen, got, lost, dvars, lvars>>
+  /\ UNCHANGED <<drv, q, mq, marm, mlen, manc, eofseen, wnext, zc, hnd, sent, seen, got, lost, dvars, lvars>>
 
 (* k bytes leave the head of the queue into a buffer of capacity cap. Zero only for a zero
    capacity or at the end of the stream (half-closed and drained). *)
@@ -196,27 +209,27 @@ Deliver(d, cap, k) ==
 RecvPlain(d, cap, k) ==
   /\ Deliver(d, cap, k)
   /\ ret' = [op |-> "recv", k |-> k, runs |-> RTake(q[d], k), len |-> k, eof |-> (k = 0 /\ cap > 0)]
-  /\ UNCHANGED <<drv, mq, marm, mlen, shut, wnext, zc, hnd, sent, lost, dvars, lvars>>
+  /\ UNCHANGED <<drv, mq, marm, mlen, manc, shut, wnext, zc, hnd, sent, lost, dvars, lvars>>
 
 (* op/recvv: RecvVectored; the first member is filled before the second (map_vec_advanced) *)
 RecvVectored(d, c1, c2, k) ==
   /\ Deliver(d, c1 + c2, k)
   /\ ret' = [op |-> "recvv", k |-> k, runs |-> RTake(q[d], k), len |-> k,
              lens |-> <<Min(k, c1), k - Min(k, c1)>>, eof |-> (k = 0 /\ c1 + c2 > 0)]
-  /\ UNCHANGED <<drv, mq, marm, mlen, shut, wnext, zc, hnd, sent, lost, dvars, lvars>>
+  /\ UNCHANGED <<drv, mq, marm, mlen, manc, shut, wnext, zc, hnd, sent, lost, dvars, lvars>>
 
 (* op/managed: RecvManaged; capacity from the pool, "nothing" (None) instead of zero bytes *)
 RecvManaged(d, len, k) ==
   /\ Deliver(d, EffCap(len), k)
   /\ ret' = [op |-> "managed", k |-> k, runs |-> RTake(q[d], k), len |-> k, none |-> (k = 0), eof |-> (k = 0)]
-  /\ UNCHANGED <<drv, mq, marm, mlen, shut, wnext, zc, hnd, sent, lost, dvars, lvars>>
+  /\ UNCHANGED <<drv, mq, marm, mlen, manc, shut, wnext, zc, hnd, sent, lost, dvars, lvars>>
 
 (* op/msg: RecvMsg with a control buffer; a stream never reports a truncated message *)
 RecvMsg(d, c1, c2, k) ==
   /\ Deliver(d, c1 + c2, k)
   /\ ret' = [op |-> "msg", k |-> k, runs |-> RTake(q[d], k), len |-> k,
              lens |-> <<Min(k, c1), k - Min(k, c1)>>, trunc |-> FALSE, eof |-> (k = 0 /\ c1 + c2 > 0)]
-  /\ UNCHANGED <<drv, mq, marm, mlen, shut, wnext, zc, hnd, sent, lost, dvars, lvars>>
+  /\ UNCHANGED <<drv, mq, marm, mlen, manc, shut, wnext, zc, hnd, sent, lost, dvars, lvars>>
 
 (* the pool has no free buffer: the managed call fails without consuming anything *)
 RecvNoBufs(d) ==
@@ -225,11 +238,13 @@ RecvNoBufs(d) ==
   /\ UNCHANGED <<drv, svars, dvars, lvars>>
 
 (* op/multi: first poll of the multishot receive stream (SubmitMultiStream creates the
-   operation): io_uring arms RecvMulti, the polling driver has no operation between items *)
-MultiOpen(d, len) ==
+   operation): io_uring arms RecvMulti / RecvMsgMulti, the polling driver has no operation
+   between items. cap = payload capacity of one item; anc = ancillary results (RecvMsgMulti) *)
+MultiOpen(d, cap, anc) ==
   /\ hnd[R(d)] > 0 /\ marm[d] = "off"
   /\ marm' = [marm EXCEPT ![d] = IF drv = "iour" THEN "armed" ELSE "idle"]
-  /\ mlen' = [mlen EXCEPT ![d] = EffCap(len)]
+  /\ mlen' = [mlen EXCEPT ![d] = cap]
+  /\ manc' = [manc EXCEPT ![d] = anc]
   /\ ret' = [op |-> "mopen"]
   /\ UNCHANGED <<drv, q, mq, shut, eofseen, wnext, zc, hnd, sent, seen, got, lost, dvars, lvars>>
 
@@ -239,7 +254,7 @@ KernelPrefetch(d, k) ==
   /\ k \in 1..Min(mlen[d], RLen(q[d]))
   /\ q' = [q EXCEPT ![d] = RDrop(@, k)]
   /\ mq' = [mq EXCEPT ![d] = Append(@, RTake(q[d], k))]
-  /\ UNCHANGED <<drv, marm, mlen, shut, eofseen, wnext, zc, hnd, sent, seen, got, lost, dvars, lvars, ret>>
+  /\ UNCHANGED <<drv, marm, mlen, manc, shut, eofseen, wnext, zc, hnd, sent, seen, got, lost, dvars, lvars, ret>>
 
 (* kernel (io_uring): the multishot terminates - end of stream (zero result) or no buffer left *)
 KernelTerminate(d, eof) ==
@@ -247,61 +262,78 @@ KernelTerminate(d, eof) ==
   /\ (eof => (q[d] = <<>> /\ shut[d]))
   /\ marm' = [marm EXCEPT ![d] = "term"]
   /\ mq' = [mq EXCEPT ![d] = IF eof THEN Append(@, <<>>) ELSE @]
-  /\ UNCHANGED <<drv, q, mlen, shut, eofseen, wnext, zc, hnd, sent, seen, got, lost, dvars, lvars, ret>>
+  /\ UNCHANGED <<drv, q, mlen, manc, shut, eofseen, wnext, zc, hnd, sent, seen, got, lost, dvars, lvars, ret>>
 
 (* the stream yields the next item: the oldest completed chunk (io_uring), or a fresh single
-   receive (polling). A zero length item ends the stream (Ready(None)). *)
-MultiNext(d, k) ==
+   receive (polling); kk bytes leave the transport with it. A plain buffer stream ends at a
+   zero length item (Ready(None)); a stream of ancillary results yields the empty item and goes
+   on (the consumer sees the end of the byte stream as empty items). DevPollMultiLen: on the
+   polling driver an ancillary item reports no payload, the kk bytes it consumed are gone. *)
+MultiNext(d, kk) ==
   /\ hnd[R(d)] > 0
-  /\ \/ /\ drv = "iour" /\ marm[d] \in {"armed", "term"} /\ mq[d] # <<>>
-        /\ k = RLen(Head(mq[d]))
-        /\ mq' = [mq EXCEPT ![d] = Tail(@)]
-        /\ seen' = [seen EXCEPT ![d] = RCat(@, Head(mq[d]))]
-        /\ got' = [got EXCEPT ![d] = RCat(@, Head(mq[d]))]
-        /\ ret' = [op |-> "mitem", k |-> k, runs |-> Head(mq[d]), len |-> k, end |-> (k = 0)]
-        /\ marm' = [marm EXCEPT ![d] = IF k = 0 THEN "off" ELSE @]
-        /\ UNCHANGED q
-     \/ /\ drv = "poll" /\ marm[d] = "idle"
-        /\ k \in 0..mlen[d] /\ k <= RLen(q[d])
-        /\ (k = 0 => (q[d] = <<>> /\ shut[d]))
-        /\ q' = [q EXCEPT ![d] = RDrop(@, k)]
-        /\ seen' = [seen EXCEPT ![d] = RCat(@, RTake(q[d], k))]
-        /\ got' = [got EXCEPT ![d] = RCat(@, RTake(q[d], k))]
-        /\ ret' = [op |-> "mitem", k |-> k, runs |-> RTake(q[d], k), len |-> k, end |-> (k = 0)]
-        /\ marm' = [marm EXCEPT ![d] = IF k = 0 THEN "off" ELSE @]
-        /\ UNCHANGED mq
-  /\ eofseen' = [eofseen EXCEPT ![d] = @ \/ (k = 0)]
-  /\ UNCHANGED <<drv, mlen, shut, wnext, zc, hnd, sent, lost, dvars, lvars>>
+  /\ LET lenlost == manc[d] /\ drv = "poll" /\ DevPollMultiLen /\ kk > 0
+         chunk == IF drv = "iour" THEN Head(mq[d]) ELSE RTake(q[d], kk)
+         ends == ~manc[d] /\ kk = 0
+     IN
+     /\ \/ /\ drv = "iour" /\ marm[d] \in {"armed", "term"} /\ mq[d] # <<>>
+           /\ kk = RLen(Head(mq[d]))
+           /\ mq' = [mq EXCEPT ![d] = Tail(@)]
+           /\ UNCHANGED q
+        \/ /\ drv = "poll" /\ marm[d] = "idle"
+           /\ kk \in 0..mlen[d] /\ kk <= RLen(q[d])
+           /\ (kk = 0 => (q[d] = <<>> /\ shut[d]))
+           /\ q' = [q EXCEPT ![d] = RDrop(@, kk)]
+           /\ UNCHANGED mq
+     /\ seen' = [seen EXCEPT ![d] = RCat(@, chunk)]
+     /\ IF lenlost
+          THEN lost' = [lost EXCEPT ![d] = RCat(@, chunk)] /\ UNCHANGED got
+          ELSE got' = [got EXCEPT ![d] = RCat(@, chunk)] /\ UNCHANGED lost
+     /\ ret' = [op |-> "mitem", k |-> IF lenlost THEN 0 ELSE kk, runs |-> IF lenlost THEN <<>> ELSE chunk,
+                len |-> IF lenlost THEN 0 ELSE kk, end |-> ends, lost |-> IF lenlost THEN kk ELSE 0]
+     /\ marm' = [marm EXCEPT ![d] = IF ends THEN "off" ELSE @]
+     /\ eofseen' = [eofseen EXCEPT ![d] = @ \/ (kk = 0)]
+  /\ UNCHANGED <<drv, mlen, manc, shut, wnext, zc, hnd, sent, dvars, lvars>>
 
 (* the terminated multishot is submitted again on the next poll (SubmitMultiStream: op = None
    -> factory.create()) when everything it completed has been yielded *)
 MultiResubmit(d) ==
   /\ drv = "iour" /\ marm[d] = "term" /\ mq[d] = <<>> /\ hnd[R(d)] > 0
   /\ marm' = [marm EXCEPT ![d] = "armed"]
-  /\ UNCHANGED <<drv, q, mq, mlen, shut, eofseen, wnext, zc, hnd, sent, seen, got, lost, dvars, lvars, ret>>
+  /\ UNCHANGED <<drv, q, mq, mlen, manc, shut, eofseen, wnext, zc, hnd, sent, seen, got, lost, dvars, lvars, ret>>
 
-(* the consumer drops the stream before its end: the operation is cancelled. Chunks that
-   completed but were not yielded are discarded with the operation (DevMultiDrop); ideally
-   they would stay receivable. *)
-MultiDrop(d) ==
+(* the consumer drops the stream before its end: the operation is cancelled. *)
+MultiDropBase(d) ==
   /\ marm[d] # "off"
   /\ marm' = [marm EXCEPT ![d] = "off"]
   /\ mq' = [mq EXCEPT ![d] = <<>>]
-  /\ IF DevMultiDrop
-       THEN /\ lost' = [lost EXCEPT ![d] = RCat(@, Flat(mq[d]))]
-            /\ seen' = [seen EXCEPT ![d] = RCat(@, Flat(mq[d]))]
-            /\ UNCHANGED q
-       ELSE /\ q' = [q EXCEPT ![d] = RCat(Flat(mq[d]), @)]
-            /\ UNCHANGED <<lost, seen>>
-  /\ ret' = [op |-> "mdrop", lost |-> IF DevMultiDrop THEN RLen(Flat(mq[d])) ELSE 0]
-  /\ UNCHANGED <<drv, mlen, shut, eofseen, wnext, zc, hnd, sent, got, dvars, lvars>>
+  /\ UNCHANGED <<drv, mlen, manc, shut, eofseen, wnext, zc, hnd, sent, got, dvars, lvars>>
+
+(* nothing had completed into the operation (or the ideal implementation: what completed stays
+   receivable) *)
+MultiDropClean(d) ==
+  /\ MultiDropBase(d)
+  /\ (Flat(mq[d]) = <<>> \/ ~DevMultiDrop)
+  /\ q' = [q EXCEPT ![d] = RCat(Flat(mq[d]), @)]
+  /\ ret' = [op |-> "mdrop", lost |-> 0]
+  /\ UNCHANGED <<lost, seen>>
+
+(* DevMultiDrop: chunks that completed but were not yielded are discarded with the operation *)
+MultiDropDiscards(d) ==
+  /\ MultiDropBase(d)
+  /\ DevMultiDrop /\ Flat(mq[d]) # <<>>
+  /\ lost' = [lost EXCEPT ![d] = RCat(@, Flat(mq[d]))]
+  /\ seen' = [seen EXCEPT ![d] = RCat(@, Flat(mq[d]))]
+  /\ ret' = [op |-> "mdrop", lost |-> RLen(Flat(mq[d]))]
+  /\ UNCHANGED q
+
+MultiDrop(d) == MultiDropClean(d) \/ MultiDropDiscards(d)
 
 (* split.rs / tcp.rs into_split: a second owned handle of the same descriptor *)
 SplitOwned(p) ==
   /\ hnd[p] = 1
   /\ hnd' = [hnd EXCEPT ![p] = 2]
   /\ ret' = [op |-> "split"]
-  /\ UNCHANGED <<drv, q, mq, marm, mlen, shut, eofseen, wnext, zc, sent, seen, got, lost, dvars, lvars>>
+  /\ UNCHANGED <<drv, q, mq, marm, mlen, manc, shut, eofseen, wnext, zc, sent, seen, got, lost, dvars, lvars>>
 
 (* dropping one owned half: the descriptor stays open while the other half lives. Dropping the
    last handle closes it: what the peer did not read yet stays readable for the peer, the
@@ -313,18 +345,18 @@ DropHalf(p) ==
   /\ LET d == IF p = "a" THEN 1 ELSE 2 IN
        shut' = [shut EXCEPT ![d] = @ \/ hnd[p] = 1]
   /\ ret' = [op |-> "drophalf", open |-> (hnd[p] > 1)]
-  /\ UNCHANGED <<drv, q, mq, marm, mlen, eofseen, wnext, zc, sent, seen, got, lost, dvars, lvars>>
+  /\ UNCHANGED <<drv, q, mq, marm, mlen, manc, eofseen, wnext, zc, sent, seen, got, lost, dvars, lvars>>
 
 -----------------------------------------------------------------------------
 (* ------------------------------ datagram part ----------------------------- *)
 
 (* op/sendto: SendTo / SendToVectored / SendMsg (+Zc): one datagram, never partial *)
-DgSend(s, t, n) ==
+DgSend(s, t, uid, n) ==
   /\ n <= MaxDgram
-  /\ dq' = [dq EXCEPT ![t] = Append(@, <<duid + 1, n, s>>)]
-  /\ dsent' = dsent \cup {<<duid + 1, n, s, t>>}
+  /\ dq' = [dq EXCEPT ![t] = Append(@, <<uid, n, s>>)]
+  /\ dsent' = dsent \cup {<<uid, n, s, t>>}
   /\ duid' = duid + 1
-  /\ ret' = [op |-> "dgsend", k |-> n, uid |-> duid + 1]
+  /\ ret' = [op |-> "dgsend", k |-> n, uid |-> uid]
   /\ UNCHANGED <<drv, svars, dmq, dmarm, dgot, dlost, lvars>>
 
 DgSendTooBig(s, n) ==
@@ -340,7 +372,7 @@ DgOverflow(t) ==
   /\ UNCHANGED <<drv, svars, dmq, dmarm, dsent, dgot, duid, lvars, ret>>
 
 DgResult(h, cap, withsrc, withflags) ==
-  [uid |-> h[1], k |-> Min(h[2], cap), cap |-> cap, wsrc |-> withsrc,
+  [uid |-> h[1], k |-> Min(h[2], cap), cap |-> cap, wsrc |-> withsrc, lenlost |-> FALSE,
    src |-> IF withsrc THEN h[3] ELSE "-",
    trunc |-> IF withflags THEN (IF h[2] > cap THEN 1 ELSE 0) ELSE -1]
 
@@ -381,20 +413,26 @@ DgKernelPrefetch(t) ==
   /\ UNCHANGED <<drv, svars, dmarm, dsent, dgot, dlost, duid, lvars, ret>>
 
 (* next item of a multishot datagram stream; payload capacity cap. A plain buffer stream
-   (recv_multi) ends at an empty datagram (endonempty), the others yield it. *)
-DgMultiNext(t, cap, withsrc, withflags, endonempty) ==
+   (recv_multi) ends at an empty datagram (endonempty), the others (ownlen: results that carry
+   their own payload length) yield it. DevPollMultiLen: on the polling driver such a result
+   reports an empty payload. *)
+DgItem(h, cap, withsrc, withflags, ownlen) ==
+  LET r == DgResult(h, cap, withsrc, withflags) IN
+  IF ownlen /\ drv = "poll" /\ DevPollMultiLen /\ r.k > 0 THEN [r EXCEPT !.k = 0, !.lenlost = TRUE] ELSE r
+
+DgMultiNext(t, cap, withsrc, withflags, ownlen) ==
   /\ \/ /\ drv = "iour" /\ dmarm[t] = "armed" /\ dmq[t] # <<>>
-        /\ LET r == DgResult(Head(dmq[t]), cap, withsrc, withflags) IN
+        /\ LET r == DgItem(Head(dmq[t]), cap, withsrc, withflags, ownlen) IN
              /\ dgot' = [dgot EXCEPT ![t] = Append(@, r)]
-             /\ ret' = [op |-> "dgmitem", end |-> (endonempty /\ r.k = 0)] @@ r
-             /\ dmarm' = [dmarm EXCEPT ![t] = IF endonempty /\ r.k = 0 THEN "off" ELSE @]
+             /\ ret' = [op |-> "dgmitem", end |-> (~ownlen /\ r.k = 0)] @@ r
+             /\ dmarm' = [dmarm EXCEPT ![t] = IF ~ownlen /\ r.k = 0 THEN "off" ELSE @]
         /\ dmq' = [dmq EXCEPT ![t] = Tail(@)]
         /\ UNCHANGED dq
      \/ /\ drv = "poll" /\ dmarm[t] = "idle" /\ dq[t] # <<>>
-        /\ LET r == DgResult(Head(dq[t]), cap, withsrc, withflags) IN
+        /\ LET r == DgItem(Head(dq[t]), cap, withsrc, withflags, ownlen) IN
              /\ dgot' = [dgot EXCEPT ![t] = Append(@, r)]
-             /\ ret' = [op |-> "dgmitem", end |-> (endonempty /\ r.k = 0)] @@ r
-             /\ dmarm' = [dmarm EXCEPT ![t] = IF endonempty /\ r.k = 0 THEN "off" ELSE @]
+             /\ ret' = [op |-> "dgmitem", end |-> (~ownlen /\ r.k = 0)] @@ r
+             /\ dmarm' = [dmarm EXCEPT ![t] = IF ~ownlen /\ r.k = 0 THEN "off" ELSE @]
         /\ dq' = [dq EXCEPT ![t] = Tail(@)]
         /\ UNCHANGED dmq
   /\ UNCHANGED <<drv, svars, dsent, dlost, duid, lvars>>
@@ -461,25 +499,30 @@ IncomingNext ==
         /\ UNCHANGED aq
   /\ UNCHANGED <<drv, svars, dvars, connecting, inc, lostc>>
 
-(* dropping the incoming stream cancels the multishot accept: connections it took but did not
-   yield are closed with the operation (DevIncomingDrop); ideally they would stay acceptable *)
-IncomingDrop ==
-  /\ inc # "off"
-  /\ inc' = "off"
-  /\ aq' = <<>>
-  /\ IF DevIncomingDrop
-       THEN /\ lostc' = lostc \cup {aq[i] : i \in 1..Len(aq)}
-            /\ UNCHANGED backlog
-       ELSE /\ backlog' = aq \o backlog
-            /\ UNCHANGED lostc
-  /\ ret' = [op |-> "incdrop", lost |-> IF DevIncomingDrop THEN Len(aq) ELSE 0]
-  /\ UNCHANGED <<drv, svars, dvars, connecting, accepted>>
+(* dropping the incoming stream cancels the multishot accept *)
+IncomingDropClean ==
+  /\ inc # "off" /\ (aq = <<>> \/ ~DevIncomingDrop)
+  /\ inc' = "off" /\ aq' = <<>>
+  /\ backlog' = aq \o backlog
+  /\ ret' = [op |-> "incdrop", lost |-> 0]
+  /\ UNCHANGED <<drv, svars, dvars, connecting, accepted, lostc>>
+
+(* DevIncomingDrop: connections the multishot accept took but did not yield are closed with the
+   operation *)
+IncomingDropCloses ==
+  /\ inc # "off" /\ aq # <<>> /\ DevIncomingDrop
+  /\ inc' = "off" /\ aq' = <<>>
+  /\ lostc' = lostc \cup {aq[i] : i \in 1..Len(aq)}
+  /\ ret' = [op |-> "incdrop", lost |-> Len(aq)]
+  /\ UNCHANGED <<drv, svars, dvars, connecting, accepted, backlog>>
+
+IncomingDrop == IncomingDropClean \/ IncomingDropCloses
 
 -----------------------------------------------------------------------------
 InitVars(dr) ==
   /\ drv = dr
   /\ q = [d \in AllDirs |-> <<>>] /\ mq = [d \in AllDirs |-> <<>>]
-  /\ marm = [d \in AllDirs |-> "off"] /\ mlen = [d \in AllDirs |-> 0]
+  /\ marm = [d \in AllDirs |-> "off"] /\ mlen = [d \in AllDirs |-> 0] /\ manc = [d \in AllDirs |-> FALSE]
   /\ shut = [d \in AllDirs |-> FALSE] /\ eofseen = [d \in AllDirs |-> FALSE]
   /\ wnext = [d \in AllDirs |-> 0] /\ zc = [d \in AllDirs |-> "none"]
   /\ hnd = [p \in Peers |-> 1]
@@ -493,6 +536,22 @@ InitVars(dr) ==
 
 Init == \E dr \in Drvs : InitVars(dr)
 
+(* a new run on fresh sockets (used by the trace specification between programs) *)
+Reset(dr) ==
+  /\ drv' = dr
+  /\ q' = [d \in AllDirs |-> <<>>] /\ mq' = [d \in AllDirs |-> <<>>]
+  /\ marm' = [d \in AllDirs |-> "off"] /\ mlen' = [d \in AllDirs |-> 0] /\ manc' = [d \in AllDirs |-> FALSE]
+  /\ shut' = [d \in AllDirs |-> FALSE] /\ eofseen' = [d \in AllDirs |-> FALSE]
+  /\ wnext' = [d \in AllDirs |-> 0] /\ zc' = [d \in AllDirs |-> "none"]
+  /\ hnd' = [p \in Peers |-> 1]
+  /\ sent' = [d \in AllDirs |-> <<>>] /\ seen' = [d \in AllDirs |-> <<>>]
+  /\ got' = [d \in AllDirs |-> <<>>] /\ lost' = [d \in AllDirs |-> <<>>]
+  /\ dq' = [s \in {"a", "b", "c"} |-> <<>>] /\ dmq' = [s \in {"a", "b", "c"} |-> <<>>]
+  /\ dmarm' = [s \in {"a", "b", "c"} |-> "off"]
+  /\ dsent' = {} /\ dgot' = [s \in {"a", "b", "c"} |-> <<>>] /\ dlost' = {} /\ duid' = 0
+  /\ connecting' = {} /\ backlog' = <<>> /\ aq' = <<>> /\ inc' = "off" /\ accepted' = <<>> /\ lostc' = {}
+  /\ ret' = NoRet
+
 (* ---- next-state relations of the exhaustive configurations ---- *)
 Free(d) == SockBuf - RLen(q[d])
 
@@ -502,6 +561,7 @@ WriterStep(d) ==
        /\ \/ SendPlain(d, n, k)
           \/ "vec" \in Feat /\ SendVectored(d, n \div 2, n - (n \div 2), k)
           \/ "zc" \in Feat /\ ZcSend(d, n, k)
+          \/ "zc" \in Feat /\ "vec" \in Feat /\ ZcSendVectored(d, n \div 2, n - (n \div 2), k)
   \/ ZcReturn(d)
   \/ Shutdown(d)
 
@@ -512,7 +572,7 @@ ReaderStep(d) ==
        \/ "managed" \in Feat /\ RecvManaged(d, c, k)
        \/ "msg" \in Feat /\ RecvMsg(d, c, 0, k)
        \/ MultiNext(d, k)
-  \/ "multi" \in Feat /\ \E c \in Caps : MultiOpen(d, c)
+  \/ "multi" \in Feat /\ \E c \in Caps, anc \in BOOLEAN : MultiOpen(d, EffCap(c), anc)
   \/ MultiDrop(d)
   \/ MultiResubmit(d)
 
@@ -528,11 +588,11 @@ NextStream == (\E d \in Dirs : WriterStep(d) \/ ReaderStep(d) \/ KernelStep(d)) 
 (* the exhaustive configuration sends from the sockets in DgSocks to socket "b" *)
 Reports == {<<TRUE, TRUE>>, <<TRUE, FALSE>>, <<FALSE, FALSE>>}     \* <<source reported, flags reported>>
 NextDgram ==
-  \/ \E s \in DgSocks, n \in Sizes : duid < MaxDg /\ (DgSend(s, "b", n) \/ DgSendTooBig(s, n))
+  \/ \E s \in DgSocks, n \in Sizes : duid < MaxDg /\ (DgSend(s, "b", duid + 1, n) \/ DgSendTooBig(s, n))
   \/ \E c \in Caps, w \in Reports :
        \/ DgRecv("b", c, w[1], w[2])
        \/ DgRecvManaged("b", c, w[1], w[2])
-       \/ \E ee \in BOOLEAN : DgMultiNext("b", EffCap(c), w[1], w[2], ee)
+       \/ \E ol \in BOOLEAN : DgMultiNext("b", EffCap(c), w[1], w[2], ol)
   \/ DgMultiOpen("b") \/ DgKernelPrefetch("b") \/ DgMultiDrop("b") \/ DgOverflow("b")
 
 NextListen ==
@@ -544,6 +604,9 @@ Next == CASE Part = "stream" -> NextStream
           [] Part = "listen" -> NextListen
 
 Spec == Init /\ [][Next]_vars
+SpecStream == Init /\ [][NextStream]_vars
+SpecDgram == Init /\ [][NextDgram]_vars
+SpecListen == Init /\ [][NextListen]_vars
 
 (* ---- fairness: the kernel keeps working and a reader that is able to take bytes (or the end
    of the stream) eventually does; an acceptor that can accept eventually does ---- *)
@@ -575,7 +638,7 @@ Conservation == \A d \in AllDirs : sent[d] = RCat(RCat(seen[d], Flat(mq[d])), q[
 StreamExact == \A d \in AllDirs :
   /\ RLen(got[d]) + RLen(lost[d]) = RLen(seen[d])
   /\ (lost[d] = <<>> => got[d] = seen[d])
-  /\ (~DevMultiDrop => lost[d] = <<>>)
+  /\ (~DevMultiDrop /\ ~DevPollMultiLen => lost[d] = <<>>)
 
 (* end of stream only after half-close, and then the reader has been given everything *)
 EofComplete == \A d \in AllDirs :
@@ -598,13 +661,18 @@ HandleOk == \A p \in Peers : hnd[p] \in 0..2
 DgMatch(t, r) ==
   \E s \in dsent :
     /\ s[1] = r.uid /\ s[4] = t
-    /\ r.k = Min(s[2], r.cap)          \* cut to the capacity, never beyond it
+    /\ (r.k = Min(s[2], r.cap) \/ r.lenlost)   \* cut to the capacity, never beyond it
+    /\ r.k <= r.cap
     /\ (r.src # "-" => r.src = s[3])
-    /\ (r.trunc # -1 => (r.trunc = 1) = (r.k < s[2]))
+    /\ (r.trunc # -1 => (r.trunc = 1) = (s[2] > r.cap))
 DgExact ==
   \A t \in DOMAIN dgot :
     /\ \A i \in 1..Len(dgot[t]) : DgMatch(t, dgot[t][i])
     /\ \A i, j \in 1..Len(dgot[t]) : i # j => dgot[t][i].uid # dgot[t][j].uid
+(* the payload is delivered: holds only without DevPollMultiLen *)
+DgPayloadDelivered ==
+  \A t \in DOMAIN dgot : \A i \in 1..Len(dgot[t]) : ~dgot[t][i].lenlost
+
 (* where the call reports a source it is delivered: holds only without DevManagedEmpty *)
 DgSourceDelivered ==
   \A t \in DOMAIN dgot : \A i \in 1..Len(dgot[t]) : dgot[t][i].wsrc => dgot[t][i].src # "-"
